@@ -22,6 +22,34 @@ pub fn run(_st: &mut State, op: &str, cmd: &Value) -> Value {
             }
             Value::Array(out)
         }
+        "codec.blowfish" => {
+            // one key, many messages: ciphertext and the decryption of the ciphertext
+            let key = get_bytes(&cmd["key"]);
+            let msgs = cmd["msgs"].as_array().cloned().unwrap_or_default();
+            guarded(|| {
+                let bf = physis::blowfish::Blowfish::new(&key);
+                let mut out = vec![];
+                for m in &msgs {
+                    let m = get_bytes(m);
+                    let enc = bf.encrypt(&m);
+                    let dec = enc.as_ref().and_then(|e| bf.decrypt(e));
+                    out.push(json!({"enc": opt(enc, |e| bytes(&e)), "dec": opt(dec, |d| bytes(&d))}));
+                }
+                value(Value::Array(out))
+            })
+        }
+        "codec.blowfish.tables" => {
+            #[cfg(physis_verif)]
+            {
+                let (p, s) = physis::blowfish::Blowfish::verif_initial_tables();
+                value(json!({"p": p.iter().map(|x| w32(*x)).collect::<Vec<Value>>(),
+                             "s": s.iter().map(|b| Value::Array(b.iter().map(|x| w32(*x)).collect())).collect::<Vec<Value>>()}))
+            }
+            #[cfg(not(physis_verif))]
+            {
+                json!({"outcome": "nohook"})
+            }
+        }
         _ => toolerror(&format!("unknown op {op}")),
     }
 }
